@@ -39,7 +39,7 @@ KEYS = ["aa11", "bb22"]
 SEQ_PATHS = ["/p", "/d/e/r"]
 ALPHA = ["a", "b", "ab", "..", ".", "a.b", "a b", "é"]
 BOUNDS = {
-    "quick": {"sequences": "every sequence of 3 operations over 2 keys x 2 paths (1 and 3 segments) from the empty store, partitioned by the first two opcodes; stores: memory, local", "values": "one value per key: symbolic ASCII str (<= 1 char) for k0; None or 2 bytes for k1 (symbolic selector)", "alias": "pairs of paths of 1..3 segments over {a, b, ab, ..} (indices chosen by the solver)", "create": "every str of length <= 3"},
+    "quick": {"sequences": "every sequence of 3 operations over 2 keys x 2 paths (1 and 3 segments) from the empty store, partitioned by the first two opcodes; stores: memory, local", "values": "one value per key: symbolic ASCII str (<= 1 char) for k0; None or 2 bytes for k1 (symbolic selector)", "alias": "pairs of paths of 1..3 segments over {a, b, ab, .., .} (indices chosen by the solver; the two 3-segment paths over {a, b, ab})", "create": "every str of length <= 3"},
     "thorough": {"sequences": "every sequence of 4 operations, partitioned by the first two opcodes; stores: memory, local, local+cache", "values": "as quick", "alias": "pairs of paths of 1..3 segments over {a, b, ab, .., ., a.b, 'a b', e-acute}", "create": "every str of length <= 4"},
 }
 OUTSIDE = ["paths with empty segments (doubled / trailing slashes)", "fully symbolic path strings (not confirmable; the segment alphabet is the bound)", "a path committed to a key whose blob was never stored (dds commits paths only after storing)", "DBFS store (see C19)"]
@@ -271,7 +271,7 @@ def queries(tier):
                 if tier == "quick" and (store == "lru" or (op0 in (1, 2, 4, 5) and store != "local")):
                     continue  # quick: the cache wrapper is C12's subject; read-only first operations only against the local store
                 qs.append({"id": "seq.%s.%s.%s" % (store, OPS[op0], OPS[op1]), "fn": "seq", "sel": {"store": store, "n": n, "op0": op0, "op1": op1}, "timeout": 300 if tier == "quick" else 1500})
-    na = 4 if tier == "quick" else 8
+    na = 5 if tier == "quick" else 8
     for lp in (1, 2, 3):
         for lq in (1, 2, 3):
             if lq < lp:
